@@ -1,20 +1,26 @@
 """C04 rule set (see DESIGN.md section 5)."""
 from rules.agree import r04_1, r04_2, r16_2, r16_3, r20_2, r20_3
 from rules.builder import r01_4, r03_2, r09_6
+from rules.layout import r04_4, r04_5_writer, r04_5_reader, r04_5_iter, r04_5_dfa
 
 LEVEL = 'other'
-RULES = [('R04.1', r04_1), ('R04.2', r04_2), ('R04.3', r01_4), ('R04.6', r20_3), ('R20.2', r20_2), ('R16.2', r16_2), ('R16.3', r16_3), ('R03.2', r03_2), ('R09.6', r09_6)]
+RULES = [('R04.1', r04_1), ('R04.2', r04_2), ('R04.3', r01_4), ('R04.4', r04_4), ('R04.5w', r04_5_writer), ('R04.5r', r04_5_reader), ('R04.5i', r04_5_iter), ('R04.5d', r04_5_dfa), ('R04.6', r20_3), ('R20.2', r20_2), ('R16.2', r16_2), ('R16.3', r16_3), ('R03.2', r03_2), ('R09.6', r09_6)]
 EXPLANATION = """R04.1 in `impl Automaton for &A` and `impl Automaton for Arc<dyn AcAutomaton>` every method forwards to its namesake on the
 inner automaton with the parameters in order (32 methods; the Arc impl's try_find / try_find_overlapping go to the shared drivers).
 R04.2 the four id predicates of the three automata are equivalent, under every relative ordering of (sid, max_match_id, max_special_id,
 start ids) with DEAD = 0, to is_dead = (sid == DEAD), is_match = (sid != DEAD && sid <= max_match_id), is_special = (sid <=
 max_special_id), is_start = (sid in {start_unanchored_id, start_anchored_id}); DEAD is 0 and FAIL is 1 in every representation.
-R04.3 closing the start loop keeps sparse chain and dense row coherent. R04.6 one source of truth: every kind is built from the one
+R04.3 closing the start loop keeps sparse chain and dense row coherent. R04.4 sentinel disjointness of the contiguous encoding (MAX_SPARSE_TRANSITIONS < KIND_ONE < KIND_DENSE <= 0xFF) and the kind
+decision of State::write. R04.5 one layout, several readers: the header layout written by State::write, the sparse block layout
+(class words padded with the last real class, then targets in the same order), the index expressions of contiguous next_state as
+affine forms (kind@o, fail@o+1, dense@o+2+class, single@o+2, sparse lane k of chunk i@o+2+ceil(n/4)+4i+k, lane agreement), u32_len as
+a decision table, dfa::sparse_iter visiting every byte 0..=255 exactly once, ByteClassSet::set_range marking the boundaries start-1
+and end, and the DFA failure closure following state.fail() unless it is DEAD. R04.6 one source of truth: every kind is built from the one
 noncontiguous NFA built from the patterns; byte classes come from nnfa.byte_classes() or singletons() under the builder's flag, and
 alphabet_len / stride2 derive from the same ByteClasses value; metadata is copied from namesake getters (R20.2). R16.2 the four special
 ids of the contiguous NFA and the DFA are the images of their namesakes under the id map. R16.3 dead state absorbing in every
 representation. R03.2 match lists transcribed from the same state. R09.6 the DFA's anchored copy."""
-NOT_DECIDED = """Equality of the transition function for every (state, byte) of every automaton: correctness of ByteClassSet, of sparse_iter's class walking, of the contiguous state layout readers (R04.4/R04.5 of the design were not built) and of the interleaved remap for arbitrary tries."""
+NOT_DECIDED = """Equality of the transition function for every (state, byte) of every automaton: the full correctness of ByteClassSet::byte_classes, of the match-section readers (match_len / match_pattern / State::remap offsets are not checked), and of the interleaved remap for arbitrary tries."""
 CLAIM = """Static decision of the agreement conditions between the representations that are visible in code shape: forwarding impls, id-predicate equivalence (finite abstract evaluation over all orderings), special-id provenance, single source NFA, metadata copy chains, match-list transcription."""
-NOTE = """Trusted: rustc MIR construction, the fact extractor. The layout reader/writer agreement of the contiguous encoding (design R04.4/R04.5) is not implemented; the transition-table equality itself is outside the family."""
+NOTE = """Trusted: rustc MIR construction, the fact extractor. The match-section offsets of the contiguous encoding are not checked; the transition-table equality itself is outside the family."""
 TECHNIQUE = "static analysis: sibling-agreement checks, abstract evaluation of comparison-only predicates under all orderings, value-provenance matching over rustc MIR"
